@@ -75,12 +75,16 @@ def _deep(structure):
         return ('?', repr(structure)[:200])
 
 
+_MISSING = object()
+
+
 def _snap(f):
-    """(structure identity, structure value, density, name) of a formula; None for anything else."""
-    d = getattr(f, '__dict__', None)
-    if d is None or 'structure' not in d:
+    """(structure identity, structure value, density, name) of a formula, read through its public attributes;
+    None for anything that has no structure."""
+    structure = getattr(f, 'structure', _MISSING)
+    if structure is _MISSING:
         return None
-    return (id(d['structure']), _deep(d['structure']), d.get('density'), d.get('name'))
+    return (id(structure), _deep(structure), getattr(f, 'density', None), getattr(f, 'name', None))
 
 
 def _lists_in(structure, out=None):
@@ -135,10 +139,23 @@ def _well_formed(structure, isatom):
     return True
 
 
-def attach_contracts(stats):
-    """icontract snapshot/ensure on the three operators, invariant on Formula, postcondition on _count_atoms."""
+def _binary(orig):
+    """Adapter with the fixed parameter names the contract conditions use: the operators are always called
+    positionally, so the names the library gives their parameters are free to change."""
+    def op(self, other):
+        return orig(self, other)
+    op.__name__ = getattr(orig, '__name__', 'op')
+    op.__doc__ = getattr(orig, '__doc__', None)
+    op.__wrapped__ = orig
+    return op
+
+
+def attach_contracts(ctx, stats):
+    """icontract snapshot/ensure on the three operators, invariant on Formula (public class and operators);
+    postcondition on the PRIVATE _count_atoms as optional instrumentation."""
     import icontract
     from periodictable import formulas, core
+    from ..gen.formulas import private, pairs_structure
     Formula = formulas.Formula
     isatom = core.isatom
 
@@ -162,7 +179,7 @@ def attach_contracts(stats):
             want[k] = want.get(k, 0) + v
         return _same_counts(_fold_ids(result.structure), want)
 
-    f = Formula.__add__
+    f = _binary(Formula.__add__)
     f = icontract.ensure(add_result_is_sum_of_operands, error=AddContractBroken)(f)
     f = icontract.ensure(add_returns_a_new_formula, error=AddContractBroken)(f)
     f = icontract.ensure(add_leaves_operands_unchanged, error=AddContractBroken)(f)
@@ -185,7 +202,7 @@ def attach_contracts(stats):
         want = dict((k, other * v) for k, v in _fold_ids(self.structure).items())
         return _same_counts(_fold_ids(result.structure), want)
 
-    f = Formula.__rmul__
+    f = _binary(Formula.__rmul__)
     f = icontract.ensure(rmul_result_is_multiple_of_operand, error=RmulContractBroken)(f)
     f = icontract.ensure(rmul_returns_a_new_formula, error=RmulContractBroken)(f)
     f = icontract.ensure(rmul_leaves_operand_unchanged, error=RmulContractBroken)(f)
@@ -212,7 +229,7 @@ def attach_contracts(stats):
     def iadd_extends_self_by_other(self, OLD):
         return _same_counts(_fold_ids(self.structure), OLD.iadd_sum)
 
-    f = Formula.__iadd__
+    f = _binary(Formula.__iadd__)
     f = icontract.ensure(iadd_extends_self_by_other, error=IaddContractBroken)(f)
     f = icontract.ensure(iadd_returns_self, error=IaddContractBroken)(f)
     f = icontract.ensure(iadd_leaves_right_operand_unchanged, error=IaddContractBroken)(f)
@@ -223,16 +240,40 @@ def attach_contracts(stats):
     # -- class invariant
     def structure_is_nesting_of_count_fragment_pairs(self):
         stats['invariant'] += 1
-        return _well_formed(self.__dict__.get('structure', ()), isatom)
+        return _well_formed(getattr(self, 'structure', ()), isatom)
 
     icontract.invariant(structure_is_nesting_of_count_fragment_pairs, error=StructureInvariantBroken)(Formula)
 
-    # -- _count_atoms
-    def count_atoms_matches_fold(seq, result):
-        stats['_count_atoms'] += 1
-        return _same_counts(dict((id(a), c) for a, c in result.items()), _fold_ids(seq))
+    # -- _count_atoms (private: optional; a call or a result of another form is passed through un-judged)
+    orig = private(ctx, formulas, '_count_atoms', waived=['contract._count_atoms'])
+    if orig is None or not callable(orig):
+        return
 
-    formulas._count_atoms = icontract.ensure(count_atoms_matches_fold, error=CountAtomsBroken)(formulas._count_atoms)
+    def count_atoms_matches_fold(seq, result):
+        try:
+            got = dict((id(a), c) for a, c in result.items())
+            want = _fold_ids(seq)
+        except Exception:
+            stats['_count_atoms.unrecognised_call'] += 1
+            return True
+        stats['_count_atoms'] += 1
+        return _same_counts(got, want)
+
+    def judged(seq):
+        return orig(seq)
+    judged = icontract.ensure(count_atoms_matches_fold, error=CountAtomsBroken)(judged)
+
+    def _count_atoms(*args, **kw):
+        if len(args) == 1 and not kw and pairs_structure(args[0]):
+            return judged(args[0])
+        stats['_count_atoms.unrecognised_call'] += 1
+        return orig(*args, **kw)
+    _count_atoms.__wrapped__ = orig
+    _count_atoms.__doc__ = getattr(orig, '__doc__', None)
+    formulas._count_atoms = _count_atoms
+
+
+SCALED_FACTOR = 1.25
 
 
 def setup(ctx):
@@ -241,6 +282,7 @@ def setup(ctx):
     from periodictable import core, formulas, mass, density
     from ..ref.masses import MassModel
     from ..statemon import Reach
+    from ..gen.formulas import watch_private, private_table_with_other_masses
 
     _s['model'] = MassModel()
     _s['me'] = pt.constants.electron_mass
@@ -248,37 +290,41 @@ def setup(ctx):
     mass.init(T)
     density.init(T)
     # a second private table whose masses were all changed (x 1.25): atoms, and in particular ions,
-    # of the wrong table show up as wrong masses
-    Ts = core.PeriodicTable('c02_scaled_%d' % ctx.shard)
-    mass.init(Ts)
-    density.init(Ts)
-    for el in Ts:
-        el._mass = el._mass * 1.25
-        for iso in el:
-            iso._mass = iso._mass * 1.25
+    # of the wrong table show up as wrong masses.  (No public route gives a table other masses: when the private
+    # attribute behind .mass cannot be written in this tree the table keeps the tabulated masses.)
+    Ts, scaled = private_table_with_other_masses('c02_scaled_%d' % ctx.shard, lambda Z: SCALED_FACTOR)
+    if not scaled:
+        ctx.count('setup.scaled-table-unavailable')
+        ctx.note('the masses of a private table could not be changed through the private attribute behind .mass '
+                 '(refactored source); the private_scaled cases run on a private table with the tabulated masses')
     _s['tables'] = {'public': pt.elements, 'private': T, 'private_scaled': Ts}
-    _s['scale'] = {'public': 1.0, 'private': 1.0, 'private_scaled': 1.25}
+    _s['scale'] = {'public': 1.0, 'private': 1.0, 'private_scaled': SCALED_FACTOR if scaled else 1.0}
     _s['cur_scale'] = 1.0
 
     reach = Reach()
     F = formulas.Formula
     reach.watch(F.__add__, 'Formula.__add__').watch(F.__iadd__, 'Formula.__iadd__').watch(F.__rmul__, 'Formula.__rmul__')
-    reach.watch(formulas._count_atoms, '_count_atoms').watch(formulas._immutable, '_immutable')
-    reach.watch(formulas._convert_to_hill_notation, '_convert_to_hill_notation')
+    # private helpers: optional reach counters (requirement waived when the name is gone)
+    count_atoms = watch_private(ctx, reach, formulas, '_count_atoms', waived=['reach.count_atoms.nested'])
+    watch_private(ctx, reach, formulas, '_immutable')
+    watch_private(ctx, reach, formulas, '_convert_to_hill_notation')
     reach.watch(core.Ion.mass, 'Ion.mass').watch(F.mass_fraction, 'Formula.mass_fraction')
     reach.watch(F.mass, 'Formula.mass').watch(F.charge, 'Formula.charge')
+    # source-line anchors (branch counters): evidence only when the text is not there (Reach.missing)
     lines = []
     for func, text, label in ((F.__rmul__, 'ret.structure = ((other*q, f), )', 'rmul.single-fragment-shortcut'),
                               (F.__rmul__, 'ret.structure = ((other, ret.structure), )', 'rmul.wrap-structure'),
-                              (formulas._count_atoms, 'partial = _count_atoms(fragment)', 'count_atoms.nested')):
+                              (count_atoms, 'partial = _count_atoms(fragment)', 'count_atoms.nested')):
+        lines.append(label)
+        if func is None:
+            continue            # already waived with the function itself
         try:
             reach.watch_line_matching(func, text, label)
-            lines.append(label)
-        except LookupError:
-            ctx.note('source line %r not found in this tree; branch counter %s not available' % (text, label))
+        except Exception:       # no source text available for this function
+            reach.missing.add(label)
     _s['reach'] = reach
     stats = _s['stats'] = Counter()
-    attach_contracts(stats)
+    attach_contracts(ctx, stats)
     reach.start()
     for name in ['Formula.__add__', 'Formula.__iadd__', 'Formula.__rmul__', '_count_atoms', '_immutable',
                  '_convert_to_hill_notation', 'Ion.mass', 'Formula.mass_fraction'] + lines:
